@@ -15,7 +15,9 @@ def with_ids(case):
 def twin_of(case, drop):
     """The same history without the operations for which drop(op) is true."""
     c = copy.deepcopy(case)
-    c["ops"] = [op for op in c["ops"] if not drop(op)]
+    # a dropped evaluation still starts its process at the same point of the history (same code version)
+    c["ops"] = [op if not drop(op) else {"op": "touch", "proc": op.get("proc", 0), "id": op.get("id")}
+                for op in c["ops"]]
     return c
 
 
